@@ -13,6 +13,9 @@ DA == 300         \* 3e-2 degrees
 PeriodicInABOnly(e) == e.pbc = <<TRUE, TRUE, FALSE>>
 AllInside(e) == \A k \in 1..Len(e.frac) : \A c \in 1..3 : -200 <= e.frac[k][c] /\ e.frac[k][c] <= 1000200
 Thickness(e) == Abs(e.c_len - (IF e.extent > e.min_thick THEN e.extent ELSE e.min_thick)) <= DL
+\* ... and the extent is the one of the layer that was supplied (measured by the harness on the input along the plane normal),
+\* not only the one of the returned cell: a layer returned cut in two by the cell boundary has the wrong thickness
+ThicknessOfInput(e) == Abs(e.c_len - (IF e.extent_in > e.min_thick THEN e.extent_in ELSE e.min_thick)) <= 2 * DL
 NormalPerpendicular(e) == Abs(e.alpha - 900000) <= DA /\ Abs(e.beta - 900000) <= DA
 SameLabels(e) == e.id = F(e).id /\ e.number = F(e).number /\ Occ(e.occ) = Occ(F(e).occ)
 \* in-plane lattice parameters up to the a <-> b exchange that a flip of the sheet may cause is NOT allowed:
@@ -23,6 +26,7 @@ DiffersFrom3D(e) == e.id # e.id3d
 Verdict(e) == IF e.error # "" THEN "ReturnsNormally" ELSE IF ~PeriodicInABOnly(e) THEN "PeriodicInABOnly"
               ELSE IF ~AllInside(e) THEN "AllAtomsInside" ELSE IF ~NormalPerpendicular(e) THEN "NonPeriodicVectorLastAndPerpendicular"
               ELSE IF ~Thickness(e) THEN "ThicknessIsMaxOfExtentAndMin"
+              ELSE IF ~ThicknessOfInput(e) THEN "ThicknessIsThatOfTheSuppliedLayer"
               ELSE IF ~SameLabels(e) THEN "SameIdGroupOccupation" ELSE IF ~SameAtomCount(e) THEN "SameAtomCount"
               ELSE IF ~SameInPlaneLattice(e) THEN "SameInPlaneLattice"
               ELSE IF ~DiffersFrom3D(e) THEN "IdDiffersFrom3D" ELSE "ok"
